@@ -18,7 +18,7 @@ EPS = float(np.finfo(float).eps)
 def synth(spec):
     """Deterministic signal [n x ncol] from a JSON spec.
 
-    {'n': n, 'sr': sr, 'cols': [col, ...]}  with col one of
+    {'n': n, 'sr': sr, 'cols': [col, ...], ['dtype': 'int']}  with col one of
       {'kind': 'sine',  'f':, 'a':, 'ph':}
       {'kind': 'chirp', 'f0':, 'f1':, 'a':, 'ph':}
       {'kind': 'amfm',  'f':, 'a':, 'ph':, 'fm':, 'depth':, 'beta':}
@@ -53,7 +53,15 @@ def synth(spec):
         else:
             raise ValueError(k)
         out[:, j] = x
+    if spec.get('dtype') == 'int':
+        out = np.round(out)          # integer-valued samples (still float64 here: the values the model sees)
     return out
+
+
+def typed(spec):
+    """The array handed to the implementation: int64 when the spec asks for integer-typed IMFs."""
+    x = synth(spec)
+    return x.astype(np.int64) if spec.get('dtype') == 'int' else x
 
 
 def is_smooth(spec):
@@ -97,7 +105,7 @@ def cols(a):
 
 # ----------------------------------------------------------------------------- oracle tables
 
-def oracle_tables(x2d, method):
+def oracle_tables(x2d, method, smoothing=5):
     """(U, A) per column from the next-lower *public* functions of the real library.
 
     U: unwrapped, median-smoothed analytic angle BEFORE the quarter-cycle offset
@@ -118,7 +126,7 @@ def oracle_tables(x2d, method):
         A = upper_env(x2d)
     else:
         raise ValueError(method)
-    U = emd.spectra.phase_from_complex_signal(an, smoothing=5, ret_phase='unwrapped', phase_jump='peak')
+    U = emd.spectra.phase_from_complex_signal(an, smoothing=smoothing, ret_phase='unwrapped', phase_jump='peak')
     return U, A
 
 
